@@ -1,7 +1,7 @@
 """C07 -- all generated output formats describe the same configuration.
 
 Trees with one option of each type in each presence state (visible / hidden / promptless / n / empty) x ALL rename files of
-<= 3 lines over a 12-line alphabet (plain and inverted aliases of the same bool, two aliases of one option in both orders,
+<= 3 lines over a 13-line alphabet (plain and inverted aliases of the same bool, two aliases of one option in both orders,
 duplicate old names where the last wins, aliases of int/string/hex with and without `!`, alias of an undefined option,
 lowercase old name) x all configurations of the value domain.
 
@@ -46,8 +46,9 @@ ALPHABET = [
     "CONFIG_OLD_U CONFIG_UNDEFINED",
     "CONFIG_old_lower CONFIG_B",
     "CONFIG_OLD_NBH !CONFIG_BH",
+    "CONFIG_OLD_B !CONFIG_B",
 ]
-BOOL_LINES = [0, 1, 2, 3, 4, 10, 11]
+BOOL_LINES = [0, 1, 2, 3, 4, 10, 11, 12]
 
 
 def trees() -> List[Tuple[str, Program, Dict[str, List[Optional[str]]]]]:
